@@ -293,6 +293,7 @@ def run_one(mod, case, ctx):
 def run_shard(mod, tier, seed, shard, nshards, out_path):
     import hypothesis
     from hypothesis import given
+    os.environ['VERIF_SEED_EFFECTIVE'] = str(seed)
     scratch = tempfile.mkdtemp(prefix=f'verif-{mod.ID}-{shard}-')
     ctx = Ctx(tier, seed, shard, nshards, scratch)
     stats = Stats()
